@@ -1,33 +1,47 @@
-import MindsVerif.Lemmas.Render
+import MindsVerif.Lemmas.RenderFull
 import MindsVerif.Lemmas.SaParen
 import MindsVerif.Model.EngineSqlite
 import MindsVerif.Gen.SaPrec
 /-!
 # C06 — SQL rendered through SQLAlchemy means the same as the parsed statement
 
-`Render.saNorm` / `saStmt` (hand model of `SqlalchemyRender`, tied by the correspondence stream and by
-the pins below) is what the rendered text denotes; `evalQuery` / `exec` is a small SQL semantics
-(NULLs, 3-valued logic, all join kinds, ORDER BY direction / NULLS, DISTINCT, LIMIT/OFFSET, set
-operations; CASE, CAST to integer types, IN lists; GROUP BY with count/sum/min/max, count(*) and HAVING).  `SaParen.saParens` is SQLAlchemy's parenthesisation policy over the generated
-`_PRECEDENCE` table, `EngineSqlite.table` the target engine's precedence (trusted).
+`Render.saNorm` / `saRender` / `saStmt` (hand model of `SqlalchemyRender.get_string`, tied by the
+correspondence streams of `tools/props/c06.py` and by the pins `phi6_*`) is what the rendered text
+denotes; `evalQuery` / `evalNested` / `exec` is a small SQL semantics (NULLs, 3-valued logic, all
+join kinds with ON, DISTINCT, ORDER BY direction / NULLS, LIMIT/OFFSET, set operations; CASE, CAST to
+integer types, IN lists; GROUP BY with count/sum/min/max, count(*), HAVING; uncorrelated
+sub-queries in FROM / IN / EXISTS / as a value) which is itself compared with sqlite3 on every run
+(streams `semantics-eval`, `semantics-query`).  `SaParen.saParens` is SQLAlchemy's
+parenthesisation policy over the generated `_PRECEDENCE` table plus the renderer's own groupings,
+`EngineSqlite.table` the target engine's precedence (trusted, validated by execution).
 
-* `C06_full`           : the full statement on the typed fragment (not claimed: see `C06_partial`).
-* `C06_partial`        : … holds for **all** table contents / environments / queries of the fragment
-                          under the decidable hypothesis `okQ`, which since the fixes 1eac524 / 834b7e0 /
-                          d11bd89 only delimits the *modelled* fragment (no `NOT` directly over
-                          Boolean-typed arithmetic, printed `(x) = 0` by the sqlite compiler).  Every
-                          `join_type` string is covered: the renderer maps it to its SQL kind
-                          (`saKind_sound`, all strings) or raises, and `get_string` then returns the
-                          original statement (`saRender`).
-                          `C06_regress_*` pin the former defects (now correct);
-                          no witness of an open defect is left.
-* `C06_dml_partial`    : INSERT … VALUES / UPDATE / DELETE leave the same table contents.
-* `C06_grouping`       : (T6.2) for every operator tree of the fragment — any size — accepted by
-                          `saOk`, the text SQLAlchemy prints is regrouped by sqlite's precedence to
-                          exactly the printed tree, which equals the input up to parentheses.
-* `phi6_*`             : kernel-evaluated obligations on the generated data (SQLAlchemy's
-                          `_PRECEDENCE`, the flip table of `__invert__`, the join spellings of the
-                          grammars, the join keywords probed on the real renderer).
+Meaning (T6.1 / T6.3), all **unconditional** — every environment, table content and statement of the
+typed fragment:
+* `C06`                 : `C06_full` — what `get_string` returns (rendered text, or the original when
+                           the renderer raises for a `join_type` it does not support) has the rows of
+                           the statement.
+* `C06_norm`            : the same for the rendered text itself when no join raises.
+* `C06_nested`          : `C06_nested_full` — statements with sub-queries.
+* `C06_dml`             : INSERT … VALUES / UPDATE / DELETE leave the same table contents.
+* `C06_ddl_column`, `C06_ddl_contents` : CREATE TABLE column declarations.
+* `C06_join_spelling`, `C06_not_rewrite_all`, `C06_order_key`, `C06_window_key`, `C06_alias` : the parts.
+* `C06_partial`, `C06_partial_norm`, `C06_nested_partial`, `C06_dml_partial`, `C06_join_kind`,
+  `C06_not_rewrite` : the earlier statements under `ok…`; kept as corollaries.  `ok…` no longer
+  restricts the meaning theorems: it only delimits where the model's *printed text* is compared with
+  SQLAlchemy's (`mod` flag of the driver: no `NOT` directly over a unary minus of a Boolean-typed operand).
+
+Grouping (T6.2):
+* `C06_grouping`        : for every operator tree over the method table's scalar operators — any size —
+                           accepted by `saOk` (no right operand built with the parent's own
+                           natural-self-precedent operator), sqlite's precedence regroups the printed text
+                           to exactly the printed tree, which equals the input up to parentheses;
+                           `C06_witness_8` + `C06_regroup_harmless` cover what `saOk` excludes (another
+                           tree with the same value).
+* `phi6_*`              : kernel-evaluated obligations on the generated data (`_PRECEDENCE`, the flip
+                           table of `__invert__` read through the renderer, the join spellings of the
+                           grammars, the join keywords probed on the real renderer).
+* `C06_regress_*`       : regression examples for repaired defects (all known findings of this
+                           property are repaired; none is open).
 -/
 namespace MindsVerif.Props.C06
 open MindsVerif MindsVerif.Render MindsVerif.OPM MindsVerif.SaParen MindsVerif.Gen
@@ -38,9 +52,17 @@ open MindsVerif MindsVerif.Render MindsVerif.OPM MindsVerif.SaParen MindsVerif.G
 def C06_full : Prop :=
   ∀ (env : Env) (db : Db) (q : Query), evalQuery env db (saRender q) = evalQuery env db q
 
-/-- proved part: all environments, all table contents, all queries of the modelled fragment, every
-`join_type` string (supported kinds are rendered with their SQL meaning; for the others the
-renderer raises and the fallback prints the original) -/
+/-- **C06 (meaning), full strength**: all environments, all table contents, all queries of the typed
+fragment, every `join_type` string (supported kinds are rendered with their SQL meaning; for the
+others the renderer raises and the fallback prints the original) -/
+theorem C06 : C06_full := fun env db q => evalQuery_saRender' env db q
+
+/-- without the fallback: the rendered text of a query on which the renderer does not raise -/
+theorem C06_norm (env : Env) (db : Db) (q : Query) (hr : raisesQ q = false) :
+    evalQuery env db (saNorm q) = evalQuery env db q :=
+  evalQuery_saNorm' env db q hr
+
+/-- earlier statement (hypothesis `okQ` not needed, see `C06`) -/
 theorem C06_partial (env : Env) (db : Db) (q : Query) (h : okQ q = true) :
     evalQuery env db (saRender q) = evalQuery env db q :=
   evalQuery_saRender env db q h
@@ -55,9 +77,11 @@ EXISTS, as a value; nested to any depth) -/
 def C06_nested_full : Prop :=
   ∀ (env : Env) (db : Db) (n : Nested), evalNested env db (saRenderN n) = evalNested env db n
 
-/-- proved for all table contents and all statements whose queries lie in the modelled fragment.
-Correlated sub-queries (a reference to a column of an enclosing query) are not expressible in
-`Nested` and remain with the execution probe. -/
+/-- **full strength** for statements with uncorrelated sub-queries.  Correlated sub-queries (a reference
+to a column of an enclosing query) are not expressible in `Nested` and remain with the execution probe. -/
+theorem C06_nested : C06_nested_full := fun env db n => evalNested_saRenderN' env db n
+
+/-- earlier statement (hypothesis `okN` not needed, see `C06_nested`) -/
 theorem C06_nested_partial (env : Env) (db : Db) (n : Nested) (h : okN n = true) :
     evalNested env db (saRenderN n) = evalNested env db n :=
   evalNested_saRenderN env db n h
@@ -107,6 +131,15 @@ theorem C06_ddl_contents (cols : List ColDef) (rows new : Render.Table) :
   induction new generalizing rows with
   | nil => rfl
   | cons r rs ih => simp only [insertAll, hadm, ih]
+
+/-- **T6.3, full strength**: INSERT … VALUES / UPDATE / DELETE leave the same table contents -/
+theorem C06_dml (env : Env) (db : Db) (s : Stmt) : exec env db (saStmt s) = exec env db s :=
+  exec_saStmt' env db s
+
+/-- the NOT rewrite (and CASE / CAST / IN lists / sub-query predicates) keeps every value -/
+theorem C06_not_rewrite_all (env : Env) (ρ : Nat → Val) (e : Render.Expr) :
+    eval env ρ (saNormE e) = eval env ρ e :=
+  eval_saNormE' env ρ e
 
 theorem C06_dml_partial (env : Env) (db : Db) (s : Stmt) (h : okStmt s = true) :
     exec env db (saStmt s) = exec env db s :=
